@@ -8,6 +8,7 @@ func init() {
 		filef    = "internal/transform/file_funcs.go"
 		hashf    = "internal/utils/hash.go"
 		objvalid = "internal/packages/internal/packagevalidation/objectvalidation.go"
+		tmplf    = "internal/packages/internal/packagerender/template.go"
 	)
 	addMutants(
 		// ---- R1 map-order lint
@@ -173,6 +174,32 @@ func init() {
 		Mutant{Prop: "C13", Name: "benign-labels-via-local", File: objects, Benign: true,
 			Old: "\t\t\tobj.SetLabels(labels.Merge(obj.GetLabels(), commonLabels(manifest, tmplCtx.Package.Name)))\n\t\t\tobjects = append(objects, obj)",
 			New: "\t\t\tmerged := labels.Merge(obj.GetLabels(), commonLabels(manifest, tmplCtx.Package.Name))\n\t\t\tobj.SetLabels(merged)\n\t\t\tobjects = append(objects, obj)"},
+		// single-use helpers merged into their callers (corpus J7-2): the label map and the function
+		// table are judged where they are built
+		Mutant{Prop: "C13", Name: "benign-common-labels-in-place", File: objects, Benign: true,
+			Old: "commonLabels(manifest, tmplCtx.Package.Name)))\n",
+			New: "map[string]string{\n\t\t\t\tmanifests.PackageLabel:         manifest.Name,\n\t\t\t\tmanifests.PackageInstanceLabel: tmplCtx.Package.Name,\n\t\t\t}))\n"},
+		Mutant{Prop: "C13", Name: "labels-in-place-instance-label-missing", File: objects,
+			Old:    "commonLabels(manifest, tmplCtx.Package.Name)))\n",
+			New:    "map[string]string{\n\t\t\t\tmanifests.PackageLabel: manifest.Name,\n\t\t\t}))\n",
+			Expect: []string{"C13.R4@internal/packages/internal/packagerender.parseObjects#commonLabels-keys"}},
+		Mutant{Prop: "C13", Name: "labels-in-place-instance-label-only-sometimes", File: objects,
+			Old:    "\t\t\tobj.SetLabels(labels.Merge(obj.GetLabels(), commonLabels(manifest, tmplCtx.Package.Name)))\n",
+			New:    "\t\t\tlbl := map[string]string{manifests.PackageLabel: manifest.Name}\n\t\t\tif idx == 0 {\n\t\t\t\tlbl[manifests.PackageInstanceLabel] = tmplCtx.Package.Name\n\t\t\t}\n\t\t\tobj.SetLabels(labels.Merge(obj.GetLabels(), lbl))\n",
+			Expect: []string{"C13.R4@internal/packages/internal/packagerender.parseObjects#commonLabels-keys"}},
+		Mutant{Prop: "C13", Name: "benign-cel-function-table-in-place", File: tmplf, Benign: true,
+			Old: "\tcelFn, err := celTemplateFunction(pkg.Manifest.Spec.Filters.Conditions, tmplCtx)\n",
+			New: "\tcc, err := celctx.New(pkg.Manifest.Spec.Filters.Conditions, tmplCtx)\n",
+			More: []Edit{{File: tmplf, Old: "\ttempl = templ.Funcs(celFn)\n",
+				New: "\ttempl = templ.Funcs(template.FuncMap{\n\t\t\"cel\": func(expression string) (bool, error) {\n\t\t\treturn cc.Evaluate(expression)\n\t\t},\n\t})\n"}}},
+		Mutant{Prop: "C13", Name: "function-table-in-place-admits-getenv", File: tmplf,
+			Why: "a table built at the Funcs call is judged like a constructor's: os.Getenv is not a repository function",
+			Old: "\tcelFn, err := celTemplateFunction(pkg.Manifest.Spec.Filters.Conditions, tmplCtx)\n",
+			New: "\tcc, err := celctx.New(pkg.Manifest.Spec.Filters.Conditions, tmplCtx)\n",
+			More: []Edit{{File: tmplf, Old: "\ttempl = templ.Funcs(celFn)\n",
+				New: "\ttempl = templ.Funcs(template.FuncMap{\n\t\t\"env\": os.Getenv,\n\t\t\"cel\": func(expression string) (bool, error) {\n\t\t\treturn cc.Evaluate(expression)\n\t\t},\n\t})\n"},
+				{File: tmplf, Old: "\t\"fmt\"\n", New: "\t\"fmt\"\n\t\"os\"\n"}},
+			Expect: []string{"C13.R2@internal/packages/internal/packagerender.RenderTemplates#funcmap-constructor"}},
 	)
 }
 
